@@ -388,6 +388,8 @@ class extract_visitor(NodeVisitor):
 
     def visit_Global(self, node):
         # type: (ast.Global) -> None
+        if isinstance(self.flow.scope, SourceScope):
+            return  # at module level the statement changes nothing
         self.flow.scope.globals.update(node.names)
 
     def visit_Name(self, node):
